@@ -12,6 +12,21 @@ CHECKS = {
             "Every generated history (state-guided random, replace-then-touch templates over up to 6 containers, bounded-exhaustive sequences with all boundary masks) is executed on the real IH5Record and on a plain h5py.File; status and complete view (two walkers, len/in/lookup probes) are compared after every single operation. Held on the histories observed, not for all histories.",
             "trusts h5py.File as the single-tree reference and the harness dumpers; keys limited to the documented alphabet",
             "4 C01"),
+    "C02": ("exploration",
+            "file-ledger monitor: (sha256,size,inode) of every committed container and sidecar re-checked after every API call; earlier file sets reopened in place",
+            "Random histories of data and record-level calls (incl. deliberately failing ones, merges, reopen in r/r+/a, neighbour truncation) on IH5Record and IH5MFRecord; after every call all committed files are re-hashed and compared with the ledger entry taken when the on-disk user block first carried a payload hash; file sets of earlier commits are reopened and must show the recorded state.",
+            "committed = on-disk user block carries hdf5_hashsum (parsed by the harness itself); bytes still buffered in HDF5 are seen at close at the latest",
+            "4 C02"),
+    "C03": ("exploration",
+            "contract-table monitor over the full mode x situation x neighbourhood x class matrix with a directory-state monitor; reopen by name and by all list permutations",
+            "All 120 matrix cells with random content per run, plus reopen cases with every permutation of the file list; each outcome (view, created/removed/changed files, refused calls, discard_patch) is compared with a contract table written from the property and h5py.File semantics.",
+            "contract table is the harness author's reading of the statement; stale sidecars after 'w' only counted",
+            "4 C03"),
+    "C05": ("exploration",
+            "runtime monitor around merge_files: frame condition on the still-open source (meta, files, view, disk), merged view vs source view (IH5 and plain h5py), identity fields, follow-up patch differential, refusal cases",
+            "Random source records with up to 6 containers of both classes are merged while open; the merged container is compared with the overlay view, read with plain h5py, checked for identity, and a follow-up patch of the source is opened on both chains.",
+            "follow-up patches are random data operations; stub refusal only for IH5MFRecord",
+            "4 C05"),
 }
 
 NOT_YET = {
